@@ -79,6 +79,8 @@ func (f *FreeRun) Run(horizon time.Duration) (completed bool, err error) {
 	addr[0], addr[1] = n.Listen(a0), n.Listen(a1)
 	stop := make(chan struct{})
 	var bg sync.WaitGroup
+	var netMu sync.Mutex
+	netClosed := false
 	// the network: every written datagram gets its fate at once and travels on its own goroutine
 	n.OnWrite = func(c *PConn, to string, data []byte) {
 		dir := 0
@@ -92,10 +94,18 @@ func (f *FreeRun) Run(horizon time.Duration) (completed bool, err error) {
 			f.Dropped.Add(1)
 			return
 		}
+		// Add must not run concurrently with the final Wait: sessions still
+		// transmit while they are being closed
+		netMu.Lock()
+		if netClosed {
+			netMu.Unlock()
+			return
+		}
+		bg.Add(fate.Copies)
+		netMu.Unlock()
 		for k := 0; k < fate.Copies; k++ {
 			d := time.Duration(fate.Delay[k]) * time.Millisecond
 			cp := append([]byte(nil), data...)
-			bg.Add(1)
 			go func() {
 				defer bg.Done()
 				if d > 0 {
@@ -311,6 +321,9 @@ func (f *FreeRun) Run(horizon time.Duration) (completed bool, err error) {
 	addr[0].Close()
 	addr[1].Close()
 	<-done
+	netMu.Lock()
+	netClosed = true
+	netMu.Unlock()
 	bg.Wait()
 	if sess[1] != nil {
 		sess[1].Close()
